@@ -13,7 +13,7 @@ FLAVOURS = ["asan"]
 HARNESS_SRCS = ["harness/C06.cpp"]
 PER_TIMEOUT = 30.0
 CRASH_IS_VIOLATION = True
-READY = False
+READY = True
 
 SLOT, NSLOTS, MAXSIZE, G = 0x1200, 64, 4400, 3
 PAT = [0x42, 0x41, 0x53]          # only steers the generator; the model reads the pattern from the source
